@@ -249,6 +249,10 @@ def recipes():
         return (dict(data=d, channels=sc(k), bins=[np.array(o.bin_edges[0]), np.array(o.bin_edges[1])], bin_mask=np.array(o.bin_mask)),
                 lambda a: FlowCal.gate.density2d(a['data'], a['channels'], bins=a['bins'], bin_mask=a['bin_mask'], full_output=True))
     add('gate.density2d(bin_mask)', ALL, b_regate, kind='produce-tuple')
+    add('gate.density2d([edges,edges],full)', ALL, lambda d, k: (dict(data=d, channels=sc(k), bins=[np.linspace(250, 550, 9), np.linspace(200, 500, 7)]), lambda a: FlowCal.gate.density2d(
+        a['data'], a['channels'], bins=a['bins'], gate_fraction=0.6, sigma=1.0, full_output=True)), kind='produce-tuple')
+    add('gate.density2d((edges,int edges),full)', ALL, lambda d, k: (dict(data=d, channels=sc(k), bins=(np.arange(250, 560, 31), np.arange(200, 520, 40))), lambda a: FlowCal.gate.density2d(
+        a['data'], a['channels'], bins=a['bins'], gate_fraction=0.4, sigma=0.5, full_output=True)), kind='produce-tuple')
 
     # --- stats
     for st in ('mean', 'gmean', 'median', 'mode', 'std', 'cv', 'gstd', 'gcv', 'iqr', 'rcv'):
@@ -526,6 +530,9 @@ def run_case(c):
             # aliasing: producing calls
             if ok and r['kind'] in ('produce', 'produce-tuple', 'view'):
                 outs = [result] if r['kind'] != 'produce-tuple' else [result.gated_data]
+                if r['kind'] == 'produce-tuple' and getattr(result, 'bin_edges', None) is not None:
+                    # the bin edges reported by the density gate are the gate's own arrays, not the caller's bin specification
+                    outs += [e for e in result.bin_edges if isinstance(e, np.ndarray)]
                 data_in = inputs.get('data')
                 for which, o in enumerate(outs):
                     if not isinstance(o, np.ndarray):
@@ -566,6 +573,35 @@ def run_case(c):
                             res.violation('input-aliases-result:%s' % rname, 'changing the inputs of %s (%s root) afterwards changed its result: %s' % (
                                 rname, kind, diff(s_, n_)), one)
                             ok = False
+            if ok and r['kind'] in ('produce', 'produce-tuple', 'view') and not r['plot']:
+                # siblings: two results derived from the same inputs one after the other share nothing with each other either --
+                # changing the first leaves a second, later derivation equal to what a fresh object gives
+                ref_fp = rfp(result2)
+                try:
+                    obj4 = fresh()
+                    built4 = r['build'](obj4, kind)
+                    inputs4, call4 = built4[0], built4[1]
+                    with warnings.catch_warnings():
+                        warnings.simplefilter('ignore')
+                        np.random.seed(12345)
+                        ra = call4(inputs4)
+                        oa = ra if r['kind'] != 'produce-tuple' else ra.gated_data
+                        if isinstance(oa, np.ndarray):
+                            mutate_obj(oa)
+                        np.random.seed(12345)
+                        rb = call4(inputs4)
+                    got_fp = rfp(rb)
+                    if r['kind'] == 'view':
+                        got_fp, ref_cmp = strip_values(got_fp), strip_values(ref_fp)
+                    else:
+                        ref_cmp = ref_fp
+                    if got_fp != ref_cmp:
+                        res.violation('sibling-results-share-state:%s' % rname, 'after the first result of %s (%s root) was changed, a second call on the same inputs gives a different result: %s' % (
+                            rname, kind, diff(got_fp, ref_cmp)), one)
+                        ok = False
+                except Exception as e:
+                    res.violation('sibling-call-raises:%s:%s' % (rname, type(e).__name__), 'calling %s a second time on the same inputs (%s root) raised %s: %s' % (rname, kind, type(e).__name__, e), one)
+                    ok = False
             if ok and r['kind'] == 'read-fn':
                 # a returned calibration function must have fixed its curves and channels: changing the caller's
                 # containers afterwards must not change what it computes
